@@ -31,7 +31,7 @@ LEVEL = "proof"
 # "PS" (P[2]), pointers "*P" "*In" "*Q" "*int"
 STRUCTS = {"In": [("v", "int"), ("w", "int")],
            "P": [("s", "int"), ("inner", "In"), ("arr", "A3")],
-           "Q": [("n", "int"), ("t", "str"), ("d", "dbl")]}
+           "Q": [("v", "int"), ("t", "str"), ("d", "dbl")]}      # (Q.v shares its NAME with In.v: flattened 'x.v' coincidences)
 SCALARS = ("int", "str", "dbl")
 ARRAYS = {"A3": ("int", 3), "PS": ("P", 2), "ES": ("In", 2)}
 # variables of the graph, in location order (location index = position)
@@ -39,6 +39,20 @@ VARS = [("a", "P"), ("b", "P"), ("ps", "PS"), ("e", "In"), ("f", "In"), ("es", "
         ("n", "int"), ("m", "int"), ("pp", "*P"), ("pin", "*In"), ("pi", "*int"),
         ("u", "Q"), ("x", "Q"), ("pq", "*Q")]
 NV = len(VARS)
+# Names: a parameter / callee-local is its LOCATION in the model; in the implementation it is a NAME looked up through the
+# whole dynamic scope chain (find_variable walks every caller's scope).  Parameter and callee-local names are therefore
+# drawn from the names of the caller's / global variables (same type, other type) and of the enclosing callees'
+# parameters, so that coincidences happen in most programs.
+NAMEPOOL = [n_ for n_, _ in VARS]
+SAME_TYPE_NAMES = {}
+for n_, t_ in VARS:
+    SAME_TYPE_NAMES.setdefault(t_, []).append(n_)
+
+
+def root_of(a):
+    while a[0] in ("f", "d"):
+        a = a[1]
+    return a
 
 
 def cb_type(t):
@@ -99,8 +113,9 @@ def vname(loc):
 
 
 class TypeEnv:
-    def __init__(self, vt, pt=()):
+    def __init__(self, vt, pt=(), names=None):
         self.vt, self.pt = vt, list(pt)
+        self.names = names or {}          # location -> name of a callee-local variable drawn from the name pool
 
     def typeof(self, a):
         if a[0] == "v":
@@ -119,7 +134,7 @@ def render(a, env, sty, pnames=None):
     variables i0..i2 instead of literals)."""
     k = a[0]
     if k == "v":
-        return vname(a[1])
+        return env.names.get(a[1]) or vname(a[1])
     if k == "par":
         return pnames[a[1]]
     if k == "d":
@@ -262,6 +277,8 @@ class Shadow:
         for s in o["body"]:
             if s["k"] == "call":
                 self.call(s, fr, th)
+            elif s["k"] == "decl":               # T c = e; a local of the callee: fresh location holding a copy
+                self.h.append(self.read(self.resolve(s["s"], fr)))
             else:
                 self.sop(s, fr, th)
         rv = None
@@ -358,6 +375,13 @@ class Gen:
         self.next_id = 0
         self.next_fid = 0
         self.maxcopies = maxcopies
+        self.maxdepth = 2                                         # calls nest main -> f -> g -> h
+        # the dynamic scope chain: frames[0] = globals / locals of main, frames[k] = names of the k-th enclosing callee
+        self.frames = [{n_: t_ for n_, t_ in VARS}]
+        self.locname = {i: (n_, 0) for i, (n_, _) in enumerate(VARS)}   # location -> (variable name, frame index)
+        self.cur_pn = None                                        # parameter names of the callee being generated
+        self.cur_eq = None                                        # per parameter: the nearest live variable of that name IS the argument
+        self.lnames = {}                                          # location -> pool name of a callee local
 
     # ---- candidates
     def exprs_of(self, ty, env, fr, in_callee):
@@ -369,7 +393,8 @@ class Gen:
             roots.setdefault(t, []).append(a)
         if not in_callee or self.place == "global":
             for loc, t in self.vt.items():
-                if not in_callee or loc < NV:
+                # a global whose name is also a parameter / local of the running callee is shadowed there
+                if not in_callee or (loc < NV and vname(loc) not in self.frames[-1]):
                     add(t, ("v", loc))
         if in_callee:
             for i, t in enumerate(env.pt):
@@ -398,9 +423,9 @@ class Gen:
     def pick(self, role, ty, env, fr, pmodes, in_callee, ctx, pred=None):
         cands = self.exprs_of(ty, env, fr, in_callee)
         self.rng.shuffle(cands)
+        if pred:
+            cands = [a for a in cands if pred(a)]
         for a in cands[:16]:
-            if pred and not pred(a):
-                continue
             st = self.sty()
             sig = self.sig(ctx, role, a, env, fr, pmodes, st)
             if self.allow(sig):
@@ -415,7 +440,110 @@ class Gen:
             fl += ">" if st.get("arrow") else "."
         if "[]" in es and st.get("ivar"):
             fl += "i"
+        fl += self.name_flags(a, fr, pmodes, es)
         return "%s%s|%s|%s|%s" % (ctx, "G" if self.place == "global" else "L", role, es, fl)
+
+    def clash(self, nm, k):
+        """live variables called nm in the frames below frame k: 'g<type>' global, 'm<type>' local of main,
+        'c<type>' parameter / local of an enclosing callee"""
+        out = []
+        for j in range(min(k, len(self.frames))):
+            if nm in self.frames[j]:
+                out.append(((("g" if self.place == "global" else "m") if j == 0 else "c") +
+                            self.frames[j][nm]).replace("*", "p"))
+        return ",".join(out)
+
+    def arg_is_nearest(self, a, pmc, nm, knew):
+        """the nearest live variable called nm below frame knew is the (plain or by-value) variable the argument a starts at"""
+        rt = root_of(a)
+        if rt[0] == "par":
+            if not self.cur_pn or self.cur_pn[rt[1]] != nm or (pmc and pmc[rt[1]] != "val"):
+                return False
+            own = (nm, len(self.frames) - 1)
+        else:
+            own = self.locname.get(rt[1])
+            if not own or own[0] != nm:
+                return False
+        near = max(j for j in range(min(knew, len(self.frames))) if nm in self.frames[j])
+        return own[1] == near
+
+    def root_name(self, a):
+        rt = root_of(a)
+        if rt[0] == "par":
+            return self.cur_pn[rt[1]] if self.cur_pn else None
+        return self.lnames.get(rt[1]) or vname(rt[1])
+
+    def name_flags(self, a, fr, pmodes, es):
+        """'#<clash>': the access starts at a parameter / callee local whose NAME is also the name of a live variable of
+        a caller / of the globals; '^': the access goes through a pointer, T&, array parameter or self to a variable
+        whose name is shadowed by a variable of a more recent frame (the implementation re-resolves names)"""
+        fl = ""
+        k = len(self.frames) - 1
+        rt = root_of(a)
+        nm = None
+        if rt[0] == "par" and self.cur_pn:
+            nm = self.cur_pn[rt[1]]
+        elif rt[0] == "v" and rt[1] in self.locals and rt[1] in self.lnames:
+            nm = self.lnames[rt[1]]
+        if nm and nm != "self":
+            cl = self.clash(nm, k)
+            if cl:
+                fl += "#" + cl
+                if rt[0] == "par" and self.cur_eq and self.cur_eq[rt[1]]:
+                    fl += "="
+        if "*(" in es or (rt[0] == "par" and pmodes and pmodes[rt[1]] in ("ref", "arr", "self")):
+            try:
+                tn = self.locname.get(self.sh.resolve(a, fr)[0])
+            except Bad:
+                tn = None
+            if tn:
+                sh_ = [self.frames[j][tn[0]].replace("*", "p") for j in range(tn[1] + 1, k + 1) if tn[0] in self.frames[j]]
+                if sh_:
+                    fl += "^" + ",".join(sh_)      # (types of the shadowing variables)
+        if rt[0] == "v" and k > 0 and rt[1] in self.vt and \
+                any((self.lnames.get(rt[1]) or vname(rt[1])) in self.frames[j] for j in range(1, k)):
+            fl += "%"       # a global named like a parameter / local of a function further up the call chain
+        return fl
+
+    def choose_names(self, params, depth):
+        """names of the parameters: 40 % a variable of the caller / the globals of the SAME type, 20 % any of them,
+        15 % a parameter / local name of an enclosing callee, else q<i> / r<i>"""
+        r = self.rng
+        used = {"self"}
+        names = []
+        outer = sorted(set(n_ for fr_ in self.frames[1:] for n_ in fr_))
+        for i, prm in enumerate(params):
+            if prm["mode"] == "self":
+                names.append("self")
+                continue
+            pty = ("*" + prm["ty"]) if prm["mode"] in ("ptr", "pval") else prm["ty"]
+            x = r.random()
+            cands = SAME_TYPE_NAMES.get(pty, []) if x < 0.4 else NAMEPOOL if x < 0.6 else outer if x < 0.75 else []
+            cands = [n_ for n_ in cands if n_ not in used]
+            nm = r.choice(cands) if cands else None
+            if nm is None:
+                nm = ("q%d" if depth == 0 or r.random() < 0.5 else "r%d") % i
+                if nm in used:
+                    nm = "r%d" % i if "r%d" % i not in used else "z%d" % i
+            used.add(nm)
+            names.append(nm)
+        # copy-back of array parameters runs in the lexicographic order of their NAMES (std::map): keep = binding order
+        ai = [i for i, prm in enumerate(params) if prm["mode"] == "arr"]
+        for i, nm in zip(ai, sorted(names[i] for i in ai)):
+            names[i] = nm
+        return names
+
+    def local_name(self, ty, loc, used=()):
+        """name of a fresh local of the running callee: half of them from the pool (not a name of this frame, not a
+        name the initialising call expression mentions)"""
+        r = self.rng
+        if r.random() < 0.5:
+            x = r.random()
+            cands = SAME_TYPE_NAMES.get(ty, []) if x < 0.5 else NAMEPOOL
+            cands = [n_ for n_ in cands if n_ not in self.frames[-1] and n_ not in used]
+            if cands:
+                return r.choice(cands)
+        return None
 
     def val(self):
         self.next_val += 1
@@ -490,22 +618,25 @@ class Gen:
                 out.append({"k": "rd", "id": self.next_id, "as": es, "form": form, "stys": stys, "sigs": sigs})
         return out
 
-    def gen_call(self, envc=None, frc=(), pmc=None, ctxc="M", depth=0):
+    def gen_call(self, envc=None, frc=(), pmc=None, ctxc="M", depth=0, rec=None):
         """a call whose arguments come from the calling context: main (depth 0), or the body of a callee with type
-        environment envc, frame frc, parameter modes pmc and context letter ctxc (nested call, depth 1).
+        environment envc, frame frc, parameter modes pmc and context letter ctxc (nested call, depth >= 1; calls nest
+        up to self.maxdepth).  rec: the signature of the enclosing callee - the call re-invokes that SAME function /
+        method (recursion: same parameter modes, types, names and return type; own body per invocation).
         Receiver forms: every access expression of the struct type available there (name, p->, (*p)., T& / T /
-        T* parameter, self); exit forms: falling off the end, `return;`, `return e;` (int or struct)."""
+        T* parameter, self); exit forms: falling off the end, `return;`, `return e;` (int, string or struct)."""
         r = self.rng
         in_c = depth > 0
         envc = envc or TypeEnv(self.tyall)
         frc = list(frc)
         params, fr_types, pmodes = [], [], []
-        is_method = r.random() < 0.45
+        is_method = rec["is_method"] if rec else r.random() < 0.45
+        own = (lambda a: root_of(a)[0] == "par") if rec and r.random() < 0.75 else None   # f(v) -> f(v)
         if is_method:
             # interface methods with T& / T* / struct parameters are rejected by the front end: self + int parameters
-            ty = r.choice(["P", "In", "In", "In", "Q", "Q"])
-            pred = None
-            if r.random() < 0.5:                 # aim at receivers reached through a pointer
+            ty = rec["recv_ty"] if rec else r.choice(["P", "In", "In", "In", "Q", "Q"])
+            pred = own
+            if not rec and r.random() < 0.5:     # aim at receivers reached through a pointer
                 pred = lambda a: a[0] == "d"
             p = self.pick("recv", ty, envc, frc, pmc, in_c, ctxc, pred=pred) or \
                 (pred and self.pick("recv", ty, envc, frc, pmc, in_c, ctxc))
@@ -513,73 +644,210 @@ class Gen:
                 return None
             params.append({"mode": "self", "ty": ty, "arg": p[0], "sty": p[1], "sig": p[2]})
             fr_types.append(ty); pmodes.append("self")
-            modes = [r.choice(["int", "int", "str"]) for _ in range(r.choice([0, 0, 1, 1, 2]))]
+            modes = [(m_, None) for m_ in (r.choice(["int", "int", "str"]) for _ in range(r.choice([0, 0, 1, 1, 2])))]
         else:
-            modes = [r.choice(["val", "ref", "ptr", "pval", "arr", "val", "ref", "ptr", "int", "str"])
-                     for _ in range(r.choice([1, 1, 1, 2, 2, 3]))]
-        for mode in modes:
+            modes = [(m_, None) for m_ in (r.choice(["val", "ref", "ptr", "pval", "arr", "val", "ref", "ptr", "int", "str"])
+                                           for _ in range(r.choice([1, 1, 1, 2, 2, 3])))]
+        if rec:
+            modes = list(rec["modes"])
+        for mode, fty in modes:
             if mode in ("int", "str"):
                 ty = mode
                 p = self.pick("arg" + mode, ty, envc, frc, pmc, in_c, ctxc)
-                mode = "val"
             elif mode == "pval":
-                ty = r.choice(["P", "P", "In", "In", "int", "Q", "Q"])
-                p = self.pick("argpval", "*" + ty, envc, frc, pmc, in_c, ctxc,
-                              pred=lambda a: isinstance(self.sh.read(self.sh.resolve(a, frc)), tuple))
+                ty = fty or r.choice(["P", "P", "In", "In", "int", "Q", "Q"])
+                okp = lambda a: isinstance(self.sh.read(self.sh.resolve(a, frc)), tuple)
+                p = (own and self.pick("argpval", "*" + ty, envc, frc, pmc, in_c, ctxc, pred=lambda a: own(a) and okp(a))) or \
+                    self.pick("argpval", "*" + ty, envc, frc, pmc, in_c, ctxc, pred=okp)
             else:
-                if mode == "arr":
+                if fty:
+                    ty = fty
+                elif mode == "arr":
                     ty = r.choice(["A3", "A3", "PS", "ES"])
                 elif mode in ("ptr", "ref"):
                     ty = r.choice(["P", "P", "In", "In", "int", "Q", "Q"])
                 else:
                     ty = r.choice(["P", "P", "In", "In", "Q"])
-                p = self.pick("arg" + mode, ty, envc, frc, pmc, in_c, ctxc)
+                p = (own and self.pick("arg" + mode, ty, envc, frc, pmc, in_c, ctxc, pred=own)) or \
+                    self.pick("arg" + mode, ty, envc, frc, pmc, in_c, ctxc)
             if not p:
                 return None
-            params.append({"mode": mode, "ty": ty, "arg": p[0], "sty": p[1], "sig": p[2]})
-            fr_types.append(("*" + ty) if mode in ("ptr", "pval") else ty)
-            pmodes.append(mode)
-        fid = self.next_fid
-        self.next_fid += 1
+            pm = "val" if mode in ("int", "str") else mode
+            params.append({"mode": pm, "ty": ty, "arg": p[0], "sty": p[1], "sig": p[2], "decl": mode})
+            fr_types.append(("*" + ty) if pm in ("ptr", "pval") else ty)
+            pmodes.append(pm)
+        # ---- names of the parameters; flags of the argument forms that depend on them
+        names = list(rec["names"]) if rec else self.choose_names(params, depth)
+        knew = len(self.frames)                 # index of the callee's frame in the dynamic chain
+        arg_roots = {self.root_name(prm["arg"]) for prm in params}
+        eqs = [False] * len(params)
+        for i, prm in enumerate(params):
+            if prm["mode"] == "self":
+                continue
+            prm["name"] = names[i]
+            fl = "/"
+            cl = self.clash(names[i], knew)
+            if cl:
+                fl += "#" + cl                  # the parameter's name is the name of a live variable of a caller / global
+                eqs[i] = self.arg_is_nearest(prm["arg"], pmc, names[i], knew)
+            rn = self.root_name(prm["arg"])
+            if rn in names[:i]:
+                fl += "@"                       # the argument mentions the name of an EARLIER parameter of this call
+            elif rn in names[i + 1:]:
+                fl += "&"                       # ... of a LATER parameter
+            elif rn == names[i]:
+                fl += "="                       # f(e) for a parameter itself called e
+            if fl != "/":
+                prm["sig"] += fl
+        if rec:
+            fid = rec["fid"]
+        else:
+            fid = self.next_fid
+            self.next_fid += 1
         call = {"k": "call", "fid": fid, "params": params, "body": [], "ret": None, "exit": "fall",
                 "sigs": [p["sig"] for p in params]}
+        if rec:
+            call["rec"] = True
         # bind the parameters in a scratch shadow and generate the body there
-        saved, saved_locals = self.sh, self.locals
+        saved, saved_locals, saved_pn, saved_eq = self.sh, self.locals, self.cur_pn, self.cur_eq
+        n0 = len(self.sh.h)
         trial = copy.deepcopy(self.sh)
         try:
             fr, _, _ = trial.bind(params, frc)
         except Bad:
             return None
-        self.sh, self.locals = trial, {}
+        self.sh, self.locals, self.cur_pn, self.cur_eq = trial, {}, names, eqs
+        self.frames.append({nm: ft for nm, ft in zip(names, fr_types)})
+        for i, nm in enumerate(names):
+            self.locname[n0 + i] = (nm, knew)
+            self.lnames.pop(n0 + i, None)
         env = TypeEnv(self.tyall, fr_types)
+
+        marked = []
+
+        def leave():
+            self.sh, self.locals, self.cur_pn, self.cur_eq = saved, saved_locals, saved_pn, saved_eq
+            self.frames.pop()
+
+        def unmark():
+            for nm_ in marked:
+                self.frames[-1].pop(nm_, None)
+            del marked[:]
         # context letters: F function / S method called from main; T method, E function called from a function body,
         # U function called from a method body (the receiver is being copied: its global name is stale there too)
-        ctx = (("T" if is_method else ("U" if ctxc == "S" else "E")) if in_c else ("S" if is_method else "F"))
-        kinds = ["w", "w", "w", "rd", "rd", "cp"] + ([] if in_c else ["call", "call"])
+        ctx = (("T" if is_method else ("U" if ctxc in ("S", "T", "U") else "E")) if in_c else ("S" if is_method else "F"))
+        # the return type is fixed before the body (every invocation of a recursive function shares it)
+        if rec:
+            rty = rec["rty"]
+        else:
+            rty = r.choice(["P", "In", "In", "int", "int", "int", "Q", "str"]) if r.random() < 0.45 else None
+        # a result kept in a fresh local of the calling body (`In f = g(..)`): the local is declared - and live in the
+        # caller's frame - BEFORE its initialiser runs, so its name is chosen (and entered there) before the body
+        ncopies = sum(1 for l in self.vt if l >= NV) + len(saved_locals)
+        fresh = bool(rty) and r.random() < 0.3 and ncopies < self.maxcopies
+        lname = None
+        if fresh and in_c:
+            self.frames.pop()
+            lname = self.local_name(rty, None, arg_roots)
+            if lname:
+                self.frames[-1][lname] = rty
+                marked.append(lname)
+            self.frames.append({nm: ft for nm, ft in zip(names, fr_types)})
+        can_nest = depth < self.maxdepth
+        kinds = ["w", "w", "w", "rd", "rd", "cp", "decl"] + (["call", "call"] if depth == 0 else ["call"] if can_nest else [])
+        plan = [r.choice(kinds) for _ in range(r.randint(1, 4))]
+        if can_nest and r.random() < (0.3 if not rec else 0.6):
+            # by-value / by-reference RECURSION: write through the own parameters, re-invoke the same function, read
+            # the own parameters after it returned
+            simple = ["w", "w", "rd", "cp", "decl"]
+            plan = [r.choice(simple) for _ in range(r.randint(0, 2))] + ["wown", "rec", "rown"] + \
+                   [r.choice(simple) for _ in range(r.randint(0, 1))]
+        recsig = {"is_method": is_method, "recv_ty": params[0]["ty"] if is_method else None,
+                  "modes": [(prm["decl"], prm["ty"]) for prm in params if prm["mode"] != "self"],
+                  "names": names, "rty": rty, "fid": fid}
         body = []
-        for _ in range(r.randint(1, 4)):
-            kind = r.choice(kinds)
-            if kind == "call":
-                nc = self.gen_call(env, fr, pmodes, ctx, depth + 1)
+        has_rec = False
+        for kind in plan:
+            if kind in ("call", "rec"):
+                nc = self.gen_call(env, fr, pmodes, ctx, depth + 1, rec=recsig if kind == "rec" else None)
                 if not nc:
                     continue
-                n0 = len(self.sh.h)
                 try:
                     self.sh.call(nc, fr, ())
                 except Bad:
+                    if nc["ret"] and nc["ret"].get("name"):
+                        self.frames[-1].pop(nc["ret"]["name"], None)
                     continue
                 body.append(nc)
+                has_rec = has_rec or kind == "rec"
                 if nc["ret"] and nc["ret"]["d"] is None:          # result kept in a local of this body: read it at once
                     loc = len(self.sh.h) - 1
                     nc["ret"]["loc"] = loc
                     self.locals[loc] = self.tyall[loc] = nc["ret"]["ty"]
+                    nm = nc["ret"].get("name")
+                    self.lnames.pop(loc, None)
+                    if nm:
+                        self.lnames[loc] = nm
+                    self.frames[-1][nm or "c%d" % loc] = nc["ret"]["ty"]
+                    self.locname[loc] = (nm or "c%d" % loc, knew)
                     if nc["ret"]["ty"] in SCALARS:
                         self.next_id += 1
                         st = {"arrow": True, "ivar": False}
                         body.append({"k": "rd", "id": self.next_id, "as": [("v", loc)], "form": "plain", "stys": [st],
                                      "sigs": [self.sig(ctx, "r-plain", ("v", loc), env, fr, pmodes, st)]})
                 continue
-            s = self.gen_sop(env, fr, pmodes, True, ctx, [kind])
+            if kind == "decl":
+                # T c = e; a local of the callee declared by copy (name: half of them from the pool)
+                if len(self.locals) >= 2:
+                    continue
+                dty = r.choice(["In", "In", "P", "Q"])
+                p = self.pick("decl", dty, env, fr, pmodes, True, ctx)
+                if not p:
+                    continue
+                loc = len(self.sh.h)
+                nm = self.local_name(dty, loc, {self.root_name(p[0])})
+                cl = self.clash(nm, knew) if nm else ""
+                sg = p[2] + (("/#" + cl) if cl else "")
+                if nm and pmodes and pmodes[0] == "self":
+                    try:
+                        if self.locname.get(self.sh.resolve(("par", 0), fr)[0], ("",))[0] == nm:
+                            sg += "!"           # a local of a method named like the method's receiver variable
+                    except Bad:
+                        pass
+                if not self.allow(sg):
+                    self.avoided += 1
+                    continue
+                try:
+                    self.sh.h.append(self.sh.read(self.sh.resolve(p[0], fr)))
+                except Bad:
+                    continue
+                s = {"k": "decl", "s": p[0], "ty": dty, "sty": p[1], "sigs": [sg], "loc": loc}
+                self.locals[loc] = self.tyall[loc] = dty
+                self.lnames.pop(loc, None)
+                if nm:
+                    s["name"] = nm
+                    self.lnames[loc] = nm
+                self.frames[-1][nm or "c%d" % loc] = dty
+                self.locname[loc] = (nm or "c%d" % loc, knew)
+                body.append(s)
+                continue
+            if kind == "wown":
+                p = self.pick("w", r.choice(["int", "int", "int", "str"]), env, fr, pmodes, True, ctx,
+                              pred=lambda a: root_of(a)[0] == "par")
+                s = {"k": "w", "a": p[0], "z": self.val(), "sty": p[1], "sigs": [p[2]]} if p else None
+            elif kind == "rown":
+                es, sigs, stys = [], [], []
+                for _ in range(r.randint(2, 4)):
+                    p = self.pick("r-plain", r.choice(["int", "int", "int", "str"]), env, fr, pmodes, True, ctx,
+                                  pred=lambda a: root_of(a)[0] == "par")
+                    if p:
+                        es.append(p[0]); stys.append(p[1]); sigs.append(p[2])
+                s = None
+                if es:
+                    self.next_id += 1
+                    s = {"k": "rd", "id": self.next_id, "as": es, "form": "plain", "stys": stys, "sigs": sigs}
+            else:
+                s = self.gen_sop(env, fr, pmodes, True, ctx, [kind])
             if s:
                 try:
                     self.sh.sop(s, fr)
@@ -587,21 +855,28 @@ class Gen:
                     continue
                 body.append(s)
         ret = None
-        if r.random() < 0.45:
-            ty = r.choice(["P", "In", "In", "int", "int", "int", "Q", "str"])
-            role = "reti" if ty in SCALARS else "ret"
-            e = self.pick(role, ty, env, fr, pmodes, True, ctx)
+        if rty:
+            role = "reti" if rty in SCALARS else "ret"
+            e = self.pick(role, rty, env, fr, pmodes, True, ctx)
             if e:
-                ncopies = sum(1 for l in self.vt if l >= NV) + len(saved_locals)
-                if r.random() < 0.3 and ncopies < self.maxcopies:
-                    ret = {"e": e[0], "d": None, "ty": ty, "sty": e[1], "sigs": [e[2]]}
+                if fresh:
+                    ret = {"e": e[0], "d": None, "ty": rty, "sty": e[1], "sigs": [e[2]]}
+                    if lname:
+                        ret["name"] = lname
                 else:
-                    self.sh, self.locals = saved, saved_locals
-                    d = self.pick(role.replace("ret", "retd"), ty, envc, frc, pmc, in_c, ctxc)
-                    self.sh, self.locals = trial, {}
+                    leave()
+                    d = self.pick(role.replace("ret", "retd"), rty, envc, frc, pmc, in_c, ctxc)
+                    self.sh, self.locals, self.cur_pn, self.cur_eq = trial, {}, names, eqs
+                    self.frames.append({})
                     if d:
-                        ret = {"e": e[0], "d": d[0], "ty": ty, "sty": e[1], "sty2": d[1], "sigs": [e[2], d[2]]}
-        self.sh, self.locals = saved, saved_locals
+                        ret = {"e": e[0], "d": d[0], "ty": rty, "sty": e[1], "sty2": d[1], "sigs": [e[2], d[2]]}
+            if not ret and (rec or has_rec):
+                leave()
+                unmark()
+                return None            # every invocation of a recursive function must return a value of its type
+        leave()
+        if not (ret and ret["d"] is None):
+            unmark()
         if not body and not ret:
             return None
         call["body"] = body
@@ -613,6 +888,14 @@ class Gen:
                 prm["sig"] += "R"
                 if not self.allow(prm["sig"]):
                     self.avoided += 1
+                    unmark()
+                    return None
+            call["sigs"] = [prm["sig"] for prm in params]
+        else:
+            for prm in params:                  # (the name flags were added after the form was picked)
+                if not self.allow(prm["sig"]):
+                    self.avoided += 1
+                    unmark()
                     return None
             call["sigs"] = [prm["sig"] for prm in params]
         for s in body:
@@ -628,9 +911,16 @@ class Gen:
         if o["k"] == "decl":
             self.vt[nloc] = self.tyall[nloc] = o["ty"]
             o["loc"] = nloc
+            self.frames[0]["c%d" % nloc] = o["ty"]
+            self.locname[nloc] = ("c%d" % nloc, 0)
+            self.lnames.pop(nloc, None)
         if o["k"] == "call" and o["ret"] and o["ret"]["d"] is None:
-            self.vt[len(self.sh.h) - 1] = self.tyall[len(self.sh.h) - 1] = o["ret"]["ty"]
-            o["ret"]["loc"] = len(self.sh.h) - 1
+            rl = len(self.sh.h) - 1
+            self.vt[rl] = self.tyall[rl] = o["ret"]["ty"]
+            o["ret"]["loc"] = rl
+            self.frames[0]["c%d" % rl] = o["ret"]["ty"]
+            self.locname[rl] = ("c%d" % rl, 0)
+            self.lnames.pop(rl, None)
         self.ops.append(o)
         self.sigs += o.get("sigs", [])
 
@@ -782,20 +1072,40 @@ def type_map(ops):
     for o in walk_calls(ops):
         if o["ret"] and o["ret"]["d"] is None:
             vt[o["ret"]["loc"]] = o["ret"]["ty"]
+        for s in o["body"]:
+            if s["k"] == "decl":
+                vt[s["loc"]] = s["ty"]
     return vt
+
+
+def name_map(ops):
+    """location -> pool name of the callee locals that have one"""
+    out = {o["ret"]["loc"]: o["ret"]["name"] for o in walk_calls(ops)
+           if o["ret"] and o["ret"]["d"] is None and o["ret"].get("name")}
+    for o in walk_calls(ops):
+        for s in o["body"]:
+            if s["k"] == "decl" and s.get("name"):
+                out[s["loc"]] = s["name"]
+    return out
+
+
+def is_rec_fn(o):
+    return bool(o.get("rec")) or any(s["k"] == "call" and s.get("rec") for s in o["body"])
 
 
 def to_cb(case):
     ops = case["ops"]
     vt = type_map(ops)
-    env0 = TypeEnv(vt)
+    names = name_map(ops)
+    env0 = TypeEnv(vt, names=names)
     funcs, methods = [], {"P": [], "In": [], "Q": []}
 
-    def r_call(o, envc, pnc, ind, depth=0):
+    def r_call(o, envc, pnc, ind, depth=0, chain=None):
         """text of the call statement; the callee's definition is registered in funcs / methods (its own callees first).
-        Parameters are named q<i> in a callee called from main and r<i> in a callee called from a callee (a T& parameter
-        is bound BY NAME in the implementation: equal names in caller and callee are the recorded finding
-        C07-ref-param-name-clash, reproduced with case["same_names"])"""
+        Parameters carry their generated names (p["name"]); stored cases without names: q<i> in a callee called from
+        main and r<i> in a callee called from a callee (case["same_names"]: q<i> everywhere).
+        A call flagged rec re-invokes the function of the enclosing call: ONE function whose body is a switch over an
+        extra last parameter `int lv` (one branch per invocation; the argument is a literal) - real recursion."""
         prm = o["params"]
         is_m = prm[0]["mode"] == "self"
         pt, pn, decls, args = [], [], [], []
@@ -805,19 +1115,30 @@ def to_cb(case):
             if md == "self":
                 pt.append(ty); pn.append("self")
                 continue
-            pn.append("%s%d" % (q, i))
+            nm = p.get("name") or "%s%d" % (q, i)
+            pn.append(nm)
             if md in ("ptr", "pval"):
-                pt.append("*" + ty); decls.append("%s* %s%d" % (ty, q, i))
+                pt.append("*" + ty); decls.append("%s* %s" % (ty, nm))
                 args.append(("&" if md == "ptr" else "") + render(p["arg"], envc, p["sty"], pnc))
             elif md == "ref":
-                pt.append(ty); decls.append("%s& %s%d" % (cb_type(ty), q, i)); args.append(render(p["arg"], envc, p["sty"], pnc))
+                pt.append(ty); decls.append("%s& %s" % (cb_type(ty), nm)); args.append(render(p["arg"], envc, p["sty"], pnc))
             else:
-                pt.append(ty); decls.append("%s %s%d" % (cb_type(ty), q, i)); args.append(render(p["arg"], envc, p["sty"], pnc))
-        env = TypeEnv(vt, pt)
+                pt.append(ty); decls.append("%s %s" % (cb_type(ty), nm)); args.append(render(p["arg"], envc, p["sty"], pnc))
+        env = TypeEnv(vt, pt, names)
+        recf = is_rec_fn(o)
+        lv = None
+        if recf:
+            if not o.get("rec") or chain is None:
+                chain = {"n": 0, "branches": []}
+            lv = chain["n"]
+            chain["n"] += 1
         body = []
         for s in o["body"]:
             if s["k"] == "call":
-                body += r_call(s, env, pn, "  ", depth + 1)
+                body += r_call(s, env, pn, "  ", depth + 1, chain if s.get("rec") else None)
+            elif s["k"] == "decl":
+                body.append("  %s %s = %s;" % (cb_type(s["ty"]), names.get(s["loc"]) or "c%d" % s["loc"],
+                                               render(s["s"], env, s["sty"], pn)))
             else:
                 body += r_sop(s, env, pn, "  ")
         ret = o["ret"]
@@ -827,24 +1148,35 @@ def to_cb(case):
             body.append("  return %s;" % render(ret["e"], env, ret["sty"], pn))
         elif o.get("exit") == "ret":
             body.append("  return;")
+        name = ("m%d" if is_m else "f%d") % o["fid"]
+        if recf:
+            chain["branches"].append((lv, body))
+            args.append(str(lv))
+            if lv == 0:                      # the outermost invocation: emit the function (all branches are known now)
+                decls = decls + ["int lv"]
+                body = []
+                for l, b in sorted(chain["branches"], key=lambda x: x[0]):
+                    body.append("  if (lv == %d) {" % l)
+                    body += ["  " + x for x in b]
+                    body.append("  }")
         if is_m:
-            name = "m%d" % o["fid"]
-            sig = "%s %s(%s)" % (rty, name, ", ".join(decls))
-            methods[prm[0]["ty"]].append((sig, body))
+            if not recf or lv == 0:
+                sig = "%s %s(%s)" % (rty, name, ", ".join(decls))
+                methods[prm[0]["ty"]].append((sig, body))
             ra = prm[0]["arg"]
             if ra[0] == "d" and prm[0]["sty"].get("arrow", True):
                 callee = "%s->%s" % (render(ra[1], envc, prm[0]["sty"], pnc), name)
             else:
                 callee = "%s.%s" % (render(ra, envc, prm[0]["sty"], pnc), name)
         else:
-            name = "f%d" % o["fid"]
-            funcs.append("%s %s(%s) {\n%s\n}" % (rty, name, ", ".join(decls), "\n".join(body)))
+            if not recf or lv == 0:
+                funcs.append("%s %s(%s) {\n%s\n}" % (rty, name, ", ".join(decls), "\n".join(body)))
             callee = name
         ce = "%s(%s)" % (callee, ", ".join(args))
         if not ret:
             return ["%s%s;" % (ind, ce)]
         if ret["d"] is None:
-            return ["%s%s c%d = %s;" % (ind, cb_type(ret["ty"]), ret["loc"], ce)]
+            return ["%s%s %s = %s;" % (ind, cb_type(ret["ty"]), names.get(ret["loc"]) or "c%d" % ret["loc"], ce)]
         return ["%s%s = %s;" % (ind, render(ret["d"], envc, ret.get("sty2", {}), pnc), ce)]
 
     main = []
@@ -859,7 +1191,7 @@ def to_cb(case):
         elif k == "call":
             main += r_call(o, env0, None, "  ")
     out = ["struct In { int v; int w; };", "struct P { int s; In inner; int[3] arr; };",
-           "struct Q { int n; string t; double d; };"]
+           "struct Q { int %s; string t; double d; };" % STRUCTS["Q"][0][0]]
     for ty in ("In", "P", "Q"):
         if methods[ty]:
             out.append("interface M%s {" % ty)
@@ -919,7 +1251,7 @@ def op_alloc(o):
         return 1
     if o["k"] == "call":
         return len(o["params"]) + (1 if o["ret"] and o["ret"]["d"] is None else 0) + \
-            sum(op_alloc(x) for x in o["body"] if x["k"] == "call")
+            sum(op_alloc(x) for x in o["body"] if x["k"] in ("call", "decl"))
     if o["k"] == "nop":
         return o["alloc"]
     return 0
@@ -942,6 +1274,10 @@ def locs_consistent(case):
         for s in o["body"]:
             if s["k"] == "call" and not call(s):
                 return False
+            if s["k"] == "decl":
+                if s.get("loc") != n[0]:
+                    return False
+                n[0] += 1
         if o["ret"] and o["ret"]["d"] is None:
             if o["ret"].get("loc") != n[0]:
                 return False
@@ -1026,7 +1362,7 @@ def shrink_case(case, fails, budget=400):
                         j += 1
                 if ci < len(calls_of(cur, i)):
                     cc = calls_of(cur, i)[ci]
-                    if cc["ret"] and cc["ret"]["d"] is not None:
+                    if cc["ret"] and cc["ret"]["d"] is not None and not is_rec_fn(cc):
                         cand = copy.deepcopy(cur)
                         calls_of(cand, i)[ci]["ret"] = None
                         if test(cand):
@@ -1095,7 +1431,8 @@ MODE_CH = {"val": "v", "pval": "v", "ptr": "p", "ref": "r", "arr": "a", "self": 
 
 def ser_call(o):
     ps = " ".join("%s %s" % (MODE_CH[p["mode"]], ser_aexp(p["arg"])) for p in o["params"])
-    body = " ".join((ser_call(s) if s["k"] == "call" else ser_sop(s)) for s in o["body"])
+    body = " ".join((ser_call(s) if s["k"] == "call" else ("L " + ser_aexp(s["s"])) if s["k"] == "decl" else ser_sop(s))
+                    for s in o["body"])
     r = o["ret"]
     if not r:
         ret = "0"
@@ -1164,6 +1501,7 @@ AVOID = [
     ("C07-array-member-assign-noop", r"\|cp[ds]\|.*arr\|"),
     ("C07-nested-struct-whole", r"\|(decl|cp[ds]|retd?|argval|recv|addr|argptr)\|.*\.inner\|"),
     ("C07-callee-param-struct-copy", r"^[FSETU].\|(cp[ds]|retd)\|par<|\|ret\|par<(ref|arr)"),
+    ("C07-decl-copy-of-ref-param-zeroed", r"\|decl\|par<ref"),
     # --- references / by-value parameters / self
     ("C07-ref-array-member-write-lost", r"\|(w|retdi)\|par<ref P>\.arr\[\]"),
     ("C07-ref-nested-write-rejected", r"\|(w|retdi)\|par<ref P>\.inner\."),
@@ -1182,6 +1520,15 @@ AVOID = [
     ("C07-string-call-result-dest-lost", r"\|retdi\|(?!Q\.t\|)[^|]*\.t\|"),
     # --- members of floating type
     ("C07-double-member", r"\.d\|"),
+    # --- NAMES (the implementation looks variables up by name through the whole dynamic scope chain)
+    ("C07-arg-evaluated-in-callee-scope", r"/[^|]*@"),
+    ("C07-ref-param-name-clash", r"\|par<ref [^|]*\|[^|/=]*(#(?![^|/]*=)[^|/]*?(?<=[gmc])(In|P|Q|ES|PS)\b|\^[^|/]*?(?<=[\^,])(In|P|Q|ES|PS)\b)"),
+    ("C07-pointer-write-target-shadowed", r"\|(w|retdi?|cpd|recv)\|[^|]*\*\([^|]*\|[^|/]*\^[^|/]*?(?<=[\^,])(In|P|Q|ES|PS)\b"),
+    ("C07-dynamic-scope-captures-global", r"\|[^|]*%[^|]*$"),
+    ("C07-byval-nested-member-read-captured", r"\|par<val P>(\.inner[^|]*)?\|[^|/]*#[^|/]*[gmc]PS?\b"),
+    ("C07-ptr-param-receiver-name-clash",
+     r"\|recv\|\*\(par<p(tr|val) \*(In|Q)>[^|]*\|[^|/]*#(?![^|/]*=)[^|/]*?(?<=[gmc])(In|ES|Q)\b"),
+    ("C07-self-write-receiver-shadowed", r"\|(w|retdi?)\|par<self [^|]*\|[^|/]*\^[^|/]*?(?<=[\^,])(In|P|Q|ES|PS)\b|\|decl\|[^|]*\|[^|]*!"),
     # --- documented / front-end restrictions (not defects): T& and T[n] arguments must be plain variables,
     #     a member expression cannot be passed to a struct parameter
     ("restriction-ref-arg-plain-variable", r"\|argref\|.*[.\[*]"),
@@ -1263,6 +1610,9 @@ class Build:
     def _root(self, name):
         if name in self._pn:
             return ("par", list(self._pn).index(name))
+        for loc, nm in self.g.lnames.items():
+            if nm == name and loc in self.g.locals:
+                return ("v", loc)
         return self.v(name)
 
     def _sig(self, ctx, role, a, fr=(), pmodes=None):
@@ -1298,38 +1648,94 @@ class Build:
         self.g.emit({"k": "decl", "s": a, "ty": ty, "sty": self.sty, "sigs": [self._sig("M", "decl", a)]})
         return self
 
-    def _call(self, params, body, ret, exit_, frc, pmc, ctxc, depth):
+    def _call(self, params, body, ret, exit_, frc, pmc, ctxc, depth, rec_fid=None):
         g = self.g
         outer_pt, outer_pn = self._pt, self._pn
         ps, pt, pm, pn = [], [], [], []
-        for i, (mode, ty, arg) in enumerate(params):
+        named = any(len(x) > 3 for x in params)       # explicit parameter names: (mode, type, arg, name)
+        for i, x in enumerate(params):
+            mode, ty, arg = x[:3]
             a = self.path(arg)
             role = {"self": "recv", "pval": "argpval"}.get(mode, "arg" + ty if ty in SCALARS and mode == "val" else "arg" + mode)
             ps.append({"mode": mode, "ty": ty, "arg": a, "sty": self.sty, "sig": self._sig(ctxc, role, a, frc, pmc)})
             pt.append(("*" + ty) if mode in ("ptr", "pval") else ty)
             pm.append(mode)
-            pn.append("self" if mode == "self" else "q%d" % i)
-        call = {"k": "call", "fid": g.next_fid, "params": ps, "body": [], "ret": None, "exit": exit_,
-                "sigs": [p["sig"] for p in ps]}
-        g.next_fid += 1
-        saved = g.sh
+            pn.append("self" if mode == "self" else x[3] if len(x) > 3 else ("r%d" if depth and named else "q%d") % i)
+        knew = len(g.frames)
+        for i, prm in enumerate(ps):
+            if prm["mode"] == "self":
+                continue
+            if named:
+                prm["name"] = pn[i]
+            fl = "/"
+            cl = g.clash(pn[i], knew) if named else ""
+            if cl:
+                fl += "#" + cl
+            rn = g.root_name(prm["arg"])
+            if named and rn in pn[:i]:
+                fl += "@"
+            elif named and rn in pn[i + 1:]:
+                fl += "&"
+            elif named and rn == pn[i]:
+                fl += "="
+            if fl != "/":
+                prm["sig"] += fl
+        call = {"k": "call", "fid": rec_fid if rec_fid is not None else g.next_fid, "params": ps, "body": [], "ret": None,
+                "exit": exit_, "sigs": [p["sig"] for p in ps]}
+        if rec_fid is not None:
+            call["rec"] = True
+        else:
+            g.next_fid += 1
+        saved, saved_pn, saved_locals = g.sh, g.cur_pn, g.locals
+        n0 = len(g.sh.h)
         trial = copy.deepcopy(g.sh)
         fr, _, _ = trial.bind(ps, list(frc))
-        g.sh = trial
+        # (unnamed parameters of a callee called from a callee are printed r<i>: the body specs still say q<i>)
+        fn = pn if named or not depth else [("r" + nm[1:]) if nm != "self" else nm for nm in pn]
+        g.sh, g.cur_pn, g.locals = trial, fn, {}
+        g.frames.append({nm: ft for nm, ft in zip(fn, pt)})
+        for i, nm in enumerate(fn):
+            g.locname[n0 + i] = (nm, knew)
         self._pt, self._pn = pt, pn
         is_m = pm[0] == "self"
-        ctx = (("T" if is_m else ("U" if ctxc == "S" else "E")) if depth else ("S" if is_m else "F"))
+        ctx = (("T" if is_m else ("U" if ctxc in ("S", "T", "U") else "E")) if depth else ("S" if is_m else "F"))
         for spec in body:
-            if spec[0] == "call":
+            if spec[0] in ("call", "rec"):
                 nc = self._call(spec[1], spec[2], spec[3] if len(spec) > 3 else None,
-                                spec[4] if len(spec) > 4 else "fall", fr, pm, ctx, depth + 1)
+                                spec[4] if len(spec) > 4 else "fall", fr, pm, ctx, depth + 1,
+                                rec_fid=call["fid"] if spec[0] == "rec" else None)
                 self._pt, self._pn = pt, pn
                 trial.call(nc, fr, ())
                 if nc["ret"] and nc["ret"]["d"] is None:
-                    nc["ret"]["loc"] = len(trial.h) - 1
-                    g.tyall[len(trial.h) - 1] = nc["ret"]["ty"]
+                    rl = len(trial.h) - 1
+                    nc["ret"]["loc"] = rl
+                    g.tyall[rl] = g.locals[rl] = nc["ret"]["ty"]
+                    lname = nc["ret"].get("name")
+                    if lname:
+                        g.lnames[rl] = lname
+                    g.frames[-1][lname or "c%d" % rl] = nc["ret"]["ty"]
+                    g.locname[rl] = (lname or "c%d" % rl, knew)
                 call["body"].append(nc)
                 call["sigs"] += nc["sigs"]
+                continue
+            if spec[0] == "decl":                  # ("decl", source path, type[, name])
+                a = self.path(spec[1])
+                rl = len(trial.h)
+                lname = spec[3] if len(spec) > 3 else None
+                cl = g.clash(lname, knew) if lname else ""
+                s = {"k": "decl", "s": a, "ty": spec[2], "sty": self.sty, "loc": rl,
+                     "sigs": [self._sig(ctx, "decl", a, fr, pm) + (("/#" + cl) if cl else "")]}
+                if lname and pm and pm[0] == "self" and g.locname.get(trial.resolve(("par", 0), fr)[0], ("",))[0] == lname:
+                    s["sigs"][0] += "!"
+                trial.h.append(trial.read(trial.resolve(a, fr)))
+                g.tyall[rl] = g.locals[rl] = spec[2]
+                if lname:
+                    s["name"] = lname
+                    g.lnames[rl] = lname
+                g.frames[-1][lname or "c%d" % rl] = spec[2]
+                g.locname[rl] = (lname or "c%d" % rl, knew)
+                call["body"].append(s)
+                call["sigs"] += s["sigs"]
                 continue
             s = self._sop(ctx, spec, fr, pm)
             trial.sop(s, fr)
@@ -1343,8 +1749,12 @@ class Build:
             e = self.path(ret[0])
             role = "reti" if ret[2] in SCALARS else "ret"
             r = {"e": e, "d": None, "ty": ret[2], "sty": self.sty, "sigs": [self._sig(ctx, role, e, fr, pm)]}
+            if len(ret) > 3:
+                r["name"] = ret[3]              # pool name of the fresh local that receives the result
             self._pt, self._pn = outer_pt, outer_pn
-            g.sh = saved
+            g.sh, g.cur_pn, g.locals = saved, saved_pn, saved_locals
+            g.frames.pop()
+            g.frames.append({})
             if ret[1] is not None:
                 d = self.path(ret[1])
                 r["d"] = d
@@ -1353,7 +1763,8 @@ class Build:
             call["ret"] = r
             call["sigs"] += r["sigs"]
         self._pt, self._pn = outer_pt, outer_pn
-        g.sh = saved
+        g.sh, g.cur_pn, g.locals = saved, saved_pn, saved_locals
+        g.frames.pop()
         return call
 
     def call(self, params, body, ret=None, exit_="fall"):
@@ -1386,28 +1797,44 @@ META = {
             "the callee (falls off the end, return into a fresh variable, return into a destination), for a method invoked by a "
             "function that received &c (calls made from inside a callee body are part of the model: exec_call_in / OCall2, a "
             "conservative extension), and the refinement copy-back = aliasing for arguments containing dereferences (normalisation). "
+            "Calls nest to ANY depth in the model (rstmt / exec_rstmt / OCallR: recursion, callee-local declarations `T c = e;`), a "
+            "conservative extension again; proved for it: the frame law (so write_frame_history / copy_independent range over such "
+            "histories), BY-VALUE ISOLATION AT EVERY DEPTH (byval_calls_private: a call passing everything by value whose body - and "
+            "the bodies of all calls it makes, to any depth, by-value recursion f(C v) -> f(v) included - write only through their own "
+            "parameters and locals leaves EVERY location that existed before unchanged: the caller's variables and the copies owned by "
+            "every outer level; a parameter is its location, names play no role) and BY-REFERENCE RECURSION (alias_visible_recursion: a "
+            "write at the bottom of n levels of f(C& v){ f(v); } is visible in the caller through every path). "
             "Tie on every run: random histories (<= 60 ops quick) of scalar writes through random access paths, aggregate copies, "
             "pointer retargeting, declarations, calls of functions and methods with generated callee bodies (by value, T&, T*, array "
             "parameter, self; receivers by name, p->, (*p)., struct-array element, parameter, self; int/string extra parameters; "
-            "nested calls from callee bodies; exits: falling off the end, `return;`, `return e;` with int, string or struct results "
+            "calls from callee bodies nested 3 levels deep, RECURSION (the same function re-invoked with its own parameter passed on "
+            "by value / T& / T* / as array; a write through the own parameters before and reads after the inner call at each level), "
+            "callee-local struct declarations; PARAMETER AND CALLEE-LOCAL NAMES DRAWN FROM THE NAMES OF THE CALLER'S / GLOBAL VARIABLES "
+            "(same type, other type) and of the enclosing callees' parameters, so that a name coincidence occurs in most programs (the "
+            "implementation resolves names through the whole dynamic scope chain); "
+            "exits: falling off the end, `return;`, `return e;` with int, string or struct results "
             "into a destination or a fresh variable) and reads of cells through every available path (plain, string interpolation, "
             "temporary; after calls: every cell the callee could reach) over an object graph (struct with scalar, nested-struct and "
             "array members, struct arrays, flat structs with int/string/double members, int arrays, four pointers), printed as Cb "
             "programs and run on main built from the current tree; the transcript must equal the extracted model's. A conflict stream "
             "(array parameters and self receivers by name / p-> / (*p). x three exits, callee also using the global name) makes "
             "main follow the modelled copy-back mechanism where it differs from aliasing. The generator stays inside the fragment "
-            "where main and the model agree; every excluded family of forms is a recorded known finding (46 entries) that is "
+            "where main and the model agree; every excluded family of forms is a recorded known finding (53 entries) that is "
             "replayed on every run.",
     "note": "PARTIAL: the implementation's double representation of struct values (member map + flattened 'a.b.c' variables, "
-            "managers/structs/*.cpp) is NOT modelled; the 29 avoidance rules cut away most whole-struct copies of structs with "
+            "managers/structs/*.cpp) is NOT modelled; the 37 avoidance rules cut away most whole-struct copies of structs with "
             "nested/array members, struct-array elements as whole values, pointers to members, methods on such structs (all defects "
-            "of that mechanism). Trusted: Coq kernel (vm_compute for the three witnesses), no axioms (Print Assumptions: closed); "
+            "of that mechanism) and the name-sensitive forms on which dynamic name lookup goes wrong (8 rules on name-coincidence flags "
+            "of the form signatures: argument naming an earlier parameter, T& parameter / by-value nested member / pointer-parameter "
+            "receiver named like another live struct, global captured by a caller's local, pointer / self write whose target's name is "
+            "shadowed). Trusted: Coq kernel (vm_compute for the three witnesses), no axioms (Print Assumptions: closed); "
             "extraction ExtrOcamlBasic+ExtrOcamlString; hand-written model tied by differential testing only; the Python printer of "
             "histories to Cb text and the Python shadow heap (cross-checked against the extracted model on every case). The "
             "refinement theorems cover callee bodies without dereferences, without & and without nested calls (arguments may "
-            "dereference); for nested calls copy-back = aliasing is tested only; a receiver reached through a pointer is not written "
+            "dereference); for nested / recursive calls copy-back = aliasing is tested only; a recursive function is printed as ONE "
+            "function whose body switches on an extra literal level parameter (printer artefact outside the model); a receiver reached through a pointer is not written "
             "through by the code (model: written through; differs only for by-name reads inside the method, recorded finding); "
-            "copy-back order = parameter-name order (std::map), equal to binding order for the generated names q0..q2 / r0..r2; "
+            "copy-back order = parameter-name order (std::map): the names of array parameters are assigned in sorted order; "
             "string members and pointer reads of non-string cells never share a history (recorded finding).",
 }
 
@@ -1475,7 +1902,7 @@ def gen_conflict(seed, k):
     else:
         recv = rng.choice(["e", "f", "u", "x"])
         isq = recv in ("u", "x")             # Q: an int and a string member (no pointer form: C07-arrow-read-after-string-stale)
-        mem = ("n", "t") if isq else ("v", "w")
+        mem = (STRUCTS["Q"][0][0], "t") if isq else ("v", "w")
         for mname in mem:
             b.op("w", "%s.%s" % (recv, mname), b.g.val())
         form = "name" if isq else rng.choice(["name", "arrow", "star"])
@@ -1554,7 +1981,7 @@ def run(rep):
             c = load_case(c)
             c["origin"] = "corpus"
             cases.append(c)
-    n_rand = 2000 if tier == "quick" else 60000
+    n_rand = 1600 if tier == "quick" else 60000
     maxlen = 60 if tier == "quick" else 90
     avoided = {}
     n_avoid_total = 0
@@ -1626,6 +2053,49 @@ def run(rep):
                                    "param" if a[0] == "par" else "name")
                 key = "%s / %s" % (form, ex)
                 call_matrix[key] = call_matrix.get(key, 0) + 1
+    # names and recursion: parameter / callee-local names that coincide with a live variable of a caller / the globals,
+    # re-invocations of the enclosing function, nesting depth
+    names_cov = {"parameters_named_like_a_live_variable": 0, "of_the_same_type": 0, "named_like_their_own_argument": 0,
+                 "named_like_a_parameter_of_an_enclosing_callee": 0, "callee_locals_named_like_a_live_variable": 0,
+                 "programs_with_a_name_coincidence": 0, "by_mode": {}}
+    rec_cov = {"recursive_invocations": 0, "by_value_struct_or_array_passed_down": 0, "chains_by_depth": {}, "calls_by_depth": {}}
+
+    def depth_walk(o, d, chain):
+        rec_cov["calls_by_depth"][str(d)] = rec_cov["calls_by_depth"].get(str(d), 0) + 1
+        if o.get("rec"):
+            rec_cov["recursive_invocations"] += 1
+            if any(p_["mode"] in ("val", "arr") and p_["ty"] in ("P", "In", "Q", "A3") and root_of(p_["arg"])[0] == "par"
+                   for p_ in o["params"]):
+                rec_cov["by_value_struct_or_array_passed_down"] += 1
+        kids = [x for x in o["body"] if x["k"] == "call"]
+        rk = [x for x in kids if x.get("rec")]
+        if chain and not rk:
+            rec_cov["chains_by_depth"][str(chain + 1)] = rec_cov["chains_by_depth"].get(str(chain + 1), 0) + 1
+        for x in kids:
+            depth_walk(x, d + 1, (chain + 1) if x.get("rec") else 0)
+    for c in cases:
+        anyc = False
+        for o in c["ops"]:
+            if o["k"] == "call":
+                depth_walk(o, 1, 0)
+        for o in walk_calls(c["ops"]):
+            for p_ in o["params"]:
+                m_ = re.search(r"/#([^|@&=R]*)", p_.get("sig", ""))
+                if m_:
+                    anyc = True
+                    names_cov["parameters_named_like_a_live_variable"] += 1
+                    pty = (("p" + p_["ty"]) if p_["mode"] in ("ptr", "pval") else p_["ty"])
+                    if any(x[1:] == pty for x in m_.group(1).split(",")):
+                        names_cov["of_the_same_type"] += 1
+                    if any(x[0] == "c" for x in m_.group(1).split(",")):
+                        names_cov["named_like_a_parameter_of_an_enclosing_callee"] += 1
+                    if "=" in p_["sig"].split("/")[-1]:
+                        names_cov["named_like_their_own_argument"] += 1
+                    names_cov["by_mode"][p_["mode"]] = names_cov["by_mode"].get(p_["mode"], 0) + 1
+            if o["ret"] and o["ret"].get("name"):
+                names_cov["callee_locals_named_like_a_live_variable"] += 1
+                anyc = True
+        names_cov["programs_with_a_name_coincidence"] += anyc
     sample = cases[len(cases) // 3]
     rep.coverage.update({
         "evaluations": len(cases),
@@ -1640,6 +2110,8 @@ def run(rep):
         "avoided_candidate_forms": n_avoid_total,
         "calls_by_argument_form_and_exit": dict(sorted(call_matrix.items())),
         "nested_calls": n_nested,
+        "name_coincidences": names_cov,
+        "recursion": rec_cov,
         "string_enabled_histories": sum(1 for c in cases if c.get("strings")),
         "fragment": fragment_size(),
         "samples": [{"source": to_cb(sample), "model_transcript": mres[cases.index(sample)][1][:12]},
@@ -1682,7 +2154,7 @@ def run(rep):
             rep.violation("coqchk", {"output": summ[-3000:]}, "coqchk rejects the compiled C07 development", True)
     rep.assumptions += [
         "the double representation of struct values (member map + flattened variables) is not modelled; the main stream avoids "
-        "the forms on which it misbehaves (29 rules, props/c07.py AVOID), each documented by a replayed known finding",
+        "the forms on which it misbehaves (37 rules, props/c07.py AVOID), each documented by a replayed known finding",
         "the C++ behaves like the model on the fragment: differential testing on generated histories, not proof",
         "Python printer (history -> Cb text) and transcript parser are trusted; the Python shadow heap is cross-checked against the "
         "extracted Coq model on every case",
@@ -1723,7 +2195,7 @@ def load_case(c):
     def fix_call(o):
         o = dict(o)
         o["params"] = [dict(p, arg=tup(p["arg"])) for p in o["params"]]
-        o["body"] = [(fix_call(s) if s["k"] == "call" else fix_sop(s)) for s in o["body"]]
+        o["body"] = [(fix_call(s) if s["k"] == "call" else fix_sop(s)) for s in o["body"]]      # (decl: key "s" is fixed by fix_sop)
         if o.get("ret"):
             r = dict(o["ret"])
             r["e"] = tup(r["e"])
